@@ -265,7 +265,7 @@ pub fn exec(case: &Case) -> Outcome {
             span_h: 1,
             custom_label: false,
             backend: case.backend,
-            rows: (0..6).map(|i| QRow { minute: 10 * i, jitter: 0, metric: (i % 3) as u8, host: Some((i % 2) as u8), zone: None, value: i as i8, chunk: (i % 2) as u8 }).collect(), hetero: 0 };
+            rows: (0..6).map(|i| QRow { minute: 10 * i, jitter: 0, metric: (i % 3) as u8, host: Some((i % 2) as u8), zone: None, value: i as i8, chunk: (i % 2) as u8 }).collect(), hetero: 0, pre_epoch: false };
         let now = chrono::Utc::now().timestamp_nanos_opt().unwrap();
         let env = match ingest(store.clone(), d.backend, &d.batches(now), d.schema()).await {
             Ok(e) => e,
